@@ -308,3 +308,96 @@ for qcls in (CU._NoresetSignal, CU._NoresetVariable):
         }}
 
         con.cases.append(c)
+
+
+# ---- SequentialContext.__call__ (and std.sequential, which goes through it): what the created process is built from ----------
+# The process gets the context's clock, reset, step condition, comment, capture mode -- and an on_reset action: the one
+# given at the call, otherwise the one REGISTERED on the context (constructor, with_params, std.sequential(..., on_reset=)).
+def _user_fn():
+    pass
+
+
+def _registered_action():
+    pass
+
+
+def _call_action():
+    pass
+
+
+def call_spec(registered, at_call):
+    def spec(sx, self, fn=None, **kw):
+        it = sx.it
+
+        def holds(res):
+            if res != "PROCESS" or len(it.impl_calls) != 1:
+                return False
+            a, k = it.impl_calls[0]
+            want_on_reset = _call_action if at_call else (_registered_action if registered else None)
+            return (list(a) == ["CLK", "RESET"] and k.get("step_cond") == "STEP" and k.get("comment") == "COMMENT" and k.get("capture_lazy") == "LAZY"
+                    and k.get("wrapped_fn") is _user_fn and k.get("on_reset") is want_on_reset)
+
+        return C.Pred(holds, "process built from the context's clock / reset / step condition and the effective on_reset action")
+
+    return spec
+
+
+def _seq_impl(it, *a, **k):
+    it.impl_calls.append((a, k))
+    return _decorate
+
+
+def _decorate(fn):
+    pass
+
+
+I.register_model(_decorate, lambda it, fn: "PROCESS")
+
+con = contract("cohdl.std._context:SequentialContext.__call__", PROPS)
+for registered in (False, True):
+    for at_call in (False, True):
+        def mk_ctx(env, registered=registered):
+            return SObj(SC.SequentialContext, _clk="CLK", _reset="RESET", _step_cond="STEP", _on_reset=_registered_action if registered else None, _comment="COMMENT", _attributes=None, _capture_lazy="LAZY")
+
+        kw = {"on_reset": VAL(_call_action, "action")} if at_call else {}
+        c = Case(f"on_reset:{'registered' if registered else 'none-registered'},{'given-at-call' if at_call else 'not-given-at-call'}", [Built([], mk_ctx, lambda a: "<ctx>", lambda a: None), VAL(_user_fn, "fn")], call_spec(registered, at_call), kwargs=kw)
+        c.native = False
+        c.models = [(SC.SequentialContext.__dict__["copy"], lambda it, self: self), (SC._sequential_impl, _seq_impl)]
+        c.interp_flags = {"class_call_models": {SC._ContextData: lambda it, args, kw: SObj(SC._ContextData, f_args=list(args), f_kw=dict(kw))}}
+
+        def setup_call(it, ctx, args, env):
+            it.impl_calls = []
+
+        c.setup = setup_call
+        c.custom_replay = "contracts.c04_misc.replay_registered_on_reset"
+        con.cases.append(c)
+
+_ON_RESET_DESIGN = '''
+from __future__ import annotations
+from cohdl import Entity, Port, Bit, std
+
+class Top(Entity):
+    clk = Port.input(Bit)
+    rst = Port.input(Bit)
+    a = Port.input(Bit)
+    o = Port.output(Bit, default=False)
+    flag = Port.output(Bit, default=False)
+
+    def architecture(self):
+        def action():
+            self.flag <<= True
+
+        @std.sequential(std.Clock(self.clk), std.Reset(self.rst), on_reset=action)
+        def proc():
+            self.o <<= self.a
+
+t = std.VhdlCompiler.to_string(Top)
+print("ACTION_IN_RESET_BRANCH" if "buffer_flag <= '1'" in t else "ACTION_DROPPED")
+'''
+
+
+def replay_registered_on_reset(payload):
+    from contracts.c06_extra import _run_design
+
+    rc, out = _run_design(_ON_RESET_DESIGN)
+    return {"reproduced": rc == 0 and "ACTION_DROPPED" in out, "detail": out[-200:]}
